@@ -33,6 +33,24 @@ type ModeBuilder struct {
 
 func (m *ModeBuilder) AddRule(r NFAComposite) {
 	m.Rules = append(m.Rules, r)
+
+	// Tag every state of the rule, so that a non-greedy repetition only affects
+	// the rule it was written in.
+	ruleID := len(m.Rules)
+	var pending stack.Stack[*nfa.State]
+	pending.Push(r.B)
+	for !pending.Empty() {
+		s := pending.Pop()
+		if s.Rule != 0 {
+			continue
+		}
+		s.Rule = ruleID
+		s.Transitions.ForEach(func(_ any, toStates *array.Array[*nfa.State]) {
+			for _, toState := range toStates.Elements() {
+				pending.Push(toState)
+			}
+		})
+	}
 }
 
 func (m *ModeBuilder) Build(errs *errlogger.ErrLogger, fset *gotoken.FileSet) *Mode {
